@@ -1,10 +1,11 @@
 /-
   C03 — property theorems.  Code model: `Model/C03.lean`; specification: `Found/SimSpec.lean`,
-  `Found/Dist.lean`; helper lemmas: `Lemmas/C03*.lean`; sections 10–11: `Model/C03Prec.lean`, `Model/C03Evolve.lean`.  Distributions are association lists read
+  `Found/Dist.lean`; helper lemmas: `Lemmas/C03*.lean`; sections 10–11: `Model/C03Prec.lean`, `Model/C03Evolve.lean`; section 17: `Model/C03Entry.lean`.  Distributions are association lists read
   through `Dist.get` (the probability of an outcome = the sum over equal keys), amplitude lists
   through `ampGet`.  What is not proved is listed at the end.
 -/
 import PercevalModel.Model.C03
+import PercevalModel.Model.C03Entry
 import PercevalModel.Lemmas.C03
 import PercevalModel.Lemmas.C03Mass
 import PercevalModel.Lemmas.C03More
@@ -2299,6 +2300,106 @@ theorem dict_accumulate_preserves_mixture_fast {m : ℕ} (U : Matrix (Fin m) (Fi
 example : sameKey ⟨1 / 2, [⟨1, [[1, 0]]⟩]⟩ ⟨1 / 4, [⟨⟨2, 0⟩, [[1, 0]]⟩]⟩ = true ∧
     (partAdd [⟨1 / 2, [⟨1, [[1, 0]]⟩]⟩] ⟨1 / 4, [⟨⟨2, 0⟩, [[1, 0]]⟩]⟩).2 = 3 / 4 := by decide +kernel
 
+/-! ## 17. the `StateVector` entry points that only dispatch (`Model/C03Entry.lean`) -/
+
+/-- `Simulator.probability(StateVector, BasicState)` reads the distribution `_to_bsd(evolve(ψ))` at the requested
+occupation: any matrix, any terms, any output — no hypothesis -/
+theorem probabilitySV_eq_get {m : ℕ} (U : Matrix (Fin m) (Fin m) GQ) (terms : List Term) (t : Fock) :
+    probabilitySV U terms t = get (probsOfEvolve U terms) t := by
+  unfold probabilitySV probabilityOf probsOfEvolve Dist.get
+  rw [List.filter_map, List.map_map]
+  rfl
+
+/-- … hence, behind a unitary circuit, the specification's probability of that outcome:
+`|∑ₖ cₖ ⟨annotated outputs of occupation t | U | sₖ⟩|²` summed, for every superposition of pairwise distinct tagged
+basis states, any coefficients, equal or unequal photon numbers -/
+theorem probabilitySV_eq_spec {m : ℕ} (U : Matrix (Fin m) (Fin m) GQ) (hU : IsUnitary U)
+    (terms : List Term) (hlen : ∀ t ∈ terms, ∀ s ∈ t.groups, s.length = m)
+    (hnd : (terms.map (·.groups)).Nodup) (hN : svNorm2 terms ≠ 0) (t : Fock) :
+    probabilitySV U terms t = get (probsSV U terms) t := by
+  rw [probabilitySV_eq_get, probsOfEvolve_eq_probsSV U hU terms hlen hnd hN]
+
+/-- the one-component branch of `Simulator.probs(StateVector)` (any matrix, ANY coefficient — it is never read):
+the normalised convolution of the groups' distributions, tags without photons changing nothing -/
+theorem probsSVentry_single {m : ℕ} (U : Matrix (Fin m) (Fin m) GQ) (term : Term) (t : Fock) :
+    get (probsSVentry U [term]) t = get (normalize (probsTagged U term.groups)) t := by
+  unfold probsSVentry
+  refine normalize_congr (fun t => ?_) t
+  have h := memberFast_eq_conv U 1 term t
+  simp only [memberFast, zero_div] at h
+  rw [h, probsTagged_realGroups]
+
+/-- **both branches of `Simulator.probs(StateVector)` are the specification**: behind a unitary circuit, for every
+non-empty superposition of pairwise distinct tagged basis states with non-zero coefficients, whichever branch the
+number of components selects, every outcome gets its probability under `probsSV` -/
+theorem probsSVentry_eq_spec {m : ℕ} (U : Matrix (Fin m) (Fin m) GQ) (hU : IsUnitary U)
+    (terms : List Term) (hne : terms ≠ []) (hlen : ∀ t ∈ terms, ∀ s ∈ t.groups, s.length = m)
+    (hnd : (terms.map (·.groups)).Nodup) (hc : ∀ t ∈ terms, t.coef ≠ 0) (t : Fock) :
+    get (probsSVentry U terms) t = get (probsSV U terms) t := by
+  match terms, hne, hlen, hnd, hc with
+  | [], hne, _, _, _ => exact absurd rfl hne
+  | [term], _, hlen, _, hc =>
+    rw [probsSVentry_single,
+      normalize_of_mass_one _ (probsTagged_mass_one U hU term.groups (hlen term (by simp)))]
+    exact (probsSV_fock_eq_conv U term.coef term.groups (hc term (by simp)) t).symm
+  | a :: b :: r, _, hlen, hnd, hc =>
+    have hN : svNorm2 (a :: b :: r) ≠ 0 := svNorm2_ne_zero _ ⟨a, by simp, hc a (by simp)⟩
+    show get (probsOfEvolve U (a :: b :: r)) t = _
+    rw [probsOfEvolve_eq_probsSV U hU _ hlen hnd hN]
+
+/-- `probs(ψ)[t]` and `probability(ψ, t)` agree although a one-component `ψ` takes two different routes (tensor
+product of cached group distributions vs. recombined evolved vector) -/
+theorem probsSVentry_eq_probabilitySV {m : ℕ} (U : Matrix (Fin m) (Fin m) GQ) (hU : IsUnitary U)
+    (terms : List Term) (hne : terms ≠ []) (hlen : ∀ t ∈ terms, ∀ s ∈ t.groups, s.length = m)
+    (hnd : (terms.map (·.groups)).Nodup) (hc : ∀ t ∈ terms, t.coef ≠ 0) (t : Fock) :
+    get (probsSVentry U terms) t = probabilitySV U terms t := by
+  rw [probsSVentry_eq_spec U hU terms hne hlen hnd hc,
+    probabilitySV_eq_spec U hU terms hlen hnd (by
+      obtain ⟨a, ha⟩ := List.exists_mem_of_ne_nil terms hne
+      exact svNorm2_ne_zero _ ⟨a, ha, hc a ha⟩)]
+
+/-- **a basis state is its own one-component vector**: `probability(BasicState, t)` (sum over the partitions of the
+output among the tag groups) = `probability(c·|s⟩, t)` (evolve, squared moduli) for every coefficient `c ≠ 0` -/
+theorem probability_bs_eq_sv {m : ℕ} (U : Matrix (Fin m) (Fin m) GQ) (hU : IsUnitary U) (st : AState)
+    (hst : st.length = m) (c : GQ) (hc : c ≠ 0) (t : Fock) (ht : t.length = m) :
+    probabilityBS U st t = probabilitySV U [⟨c, separate st⟩] t := by
+  have hlen : ∀ s ∈ separate st, s.length = m := by
+    intro s hs
+    unfold separate at hs
+    split at hs
+    · simp only [List.mem_singleton] at hs
+      simp [hs, occ, hst]
+    · obtain ⟨tg, _, rfl⟩ := List.mem_map.1 hs
+      simp [groupOf, hst]
+  rw [probability_eq_conv U st t ht,
+    probabilitySV_eq_spec U hU [⟨c, separate st⟩] (by simpa using hlen) (by simp)
+      (svNorm2_ne_zero _ ⟨⟨c, separate st⟩, by simp, hc⟩)]
+  exact (probsSV_fock_eq_conv U c (separate st) hc t).symm
+
+/-- the coefficient of a one-component vector is never read by `probs`; the route through `evolve` divides `0` by `0`
+for a zero coefficient (the native container cannot hold such a vector): `c ≠ 0` is needed for the agreement -/
+theorem probsSVentry_single_coef {m : ℕ} (U : Matrix (Fin m) (Fin m) GQ) (c c' : GQ) (gs : List Fock) :
+    probsSVentry U [⟨c, gs⟩] = probsSVentry U [⟨c', gs⟩] := rfl
+
+/-! non-vacuity of section 17: `exSV` (two components) and its first component alone behind `exU` -/
+example : ∀ t, get (probsSVentry PM.C02.exU exSV) t = probabilitySV PM.C02.exU exSV t :=
+  probsSVentry_eq_probabilitySV _ exU_isUnitary _ (by simp [exSV]) exSV_ok.1 exSV_ok.2.1 (by
+    intro t ht
+    simp only [exSV, List.mem_cons, List.not_mem_nil, or_false] at ht
+    rcases ht with rfl | rfl <;> decide +kernel)
+
+example : ∀ t, get (probsSVentry PM.C02.exU [⟨⟨0, 1⟩, [[2, 0], [0, 1]]⟩]) t =
+    probabilitySV PM.C02.exU [⟨⟨0, 1⟩, [[2, 0], [0, 1]]⟩] t :=
+  probsSVentry_eq_probabilitySV _ exU_isUnitary _ (by simp) (by
+    intro t ht s hs
+    simp only [List.mem_cons, List.not_mem_nil, or_false] at ht
+    subst ht
+    simp only [List.mem_cons, List.not_mem_nil, or_false] at hs
+    rcases hs with rfl | rfl <;> rfl) (by simp) (by
+    intro t ht
+    simp only [List.mem_cons, List.not_mem_nil, or_false] at ht
+    subst ht; decide +kernel)
+
 /-!
 Not proved here (validated by the correspondence on every run):
 * that the IMPLEMENTATION leaves out at a non-zero precision exactly what the model leaves out: sections 10 bounds
@@ -2327,6 +2428,9 @@ Not proved here (validated by the correspondence on every run):
 * the identity of two multi-component state vectors as dict keys (native float comparison): not modelled
   (distinct keys in `sameKey`); section 13 models the dict discipline (`norm` abstract): which un-normalised vectors the
   native normalisation maps to bit-identical keys is observed (scalings by powers of two, fresh copies), not modelled;
+* section 17 (`probs(StateVector)` / `probability(StateVector, ·)`): the number of components is the length of the term
+  list — that the native container holds one component per distinct basis state is compared (`len(sv)`), not modelled;
+  `evolve_svd` given a `StateVector`/`BasicState` returns `SVDistribution(evolve(·))`, not the documented dict: not modelled;
 * states mixing annotated and un-annotated photons: `native` (Model/C03Mixed.lean) describes what the native
   `separate_state` / `get_photon_annotation(0)` were observed to do; that they do it is the correspondence (every
   request is read through `native`; groups and annotation map compared with the real objects), not a theorem.
